@@ -264,7 +264,9 @@ CLAIMED = {
         text="Proof: deep clone = same tree with fresh identities numbered in document order (with c01_clone for the "
              "mechanism), shallow clone keeps name and attributes only, cloning appends one parentless group and changes "
              "nothing else, every edit leaves untouched groups unchanged (frame) hence histories on one side are invisible on "
-             "the other, _copy_root_siblings' two stacks reproduce prologue and epilogue in order (Props/C10.lean). Tie to "
+             "the other, _copy_root_siblings' two stacks reproduce prologue and epilogue in order, and Document.clone (deep clone of the "
+             "root, then a copy of every root sibling) gives the same prologue, root and epilogue with exactly the next "
+             "fresh identities, none shared with the original (c10_document_clone) (Props/C10.lean). Tie to "
              "code: clones (clone deep/shallow, copy, deepcopy, Document.clone) of nodes of every kind in forests reached by "
              "edit histories: equality, freshness of every object, no tail, then random edits confined to one side with the "
              "other side re-dumped; compiled clone model compared per case.",
@@ -369,7 +371,13 @@ CLAIMED = {
         text="Proof: PrettySerializer (width 0) is modelled in Lean (Model/Pretty.lean: _serialize_tag, _handle_child_nodes, "
              "_serialize_child_nodes, serialize_node, _serialize_text, both whitespace-legitimacy predicates, aligned "
              "attributes) and proved to write, for every data-style tree, every non-empty indentation string and both "
-             "alignment settings, exactly what a straightforward recursive pretty printer writes (Props/C18.lean). Tie to "
+             "alignment settings, exactly what a straightforward recursive pretty printer writes (Props/C18.lean); the layout sentences of the property are theorems about that "
+             "reference output: aligned attributes are written one per line after the tag-name line, padded with spaces so "
+             "that all equal signs of a tag sit in one column (c18_aligned_equal_signs, c18_equal_sign_column, "
+             "c18_attribute_lines_count; alignment applies from two attributes on, the root's namespace declarations count), "
+             "a tag with structural children is start tag, each child at depth+1, end tag on lines of their own, an empty "
+             "tag is self-closed, a one-text leaf is three lines (c18_children_on_own_lines, c18_leaf_text_lines, "
+             "c18_child_lines_indented, c18_serializer_start_tag). Tie to "
              "code: three-way exact string equality implementation = model = reference printer (+ an independent Python "
              "reference printer) for generated data-style trees x indentation x alignment, from the root, from subtrees and "
              "as a document.",
